@@ -12,7 +12,7 @@ import (
 var wsSubst = []string{"\t", "\n", "\r", "\r\n", "  ", " \t\n ",
 	// long runs: however much white space a gap holds, it is one gap
 	strings.Repeat(" ", 65), strings.Repeat("\t", 129), strings.Repeat(" \r\n", 70)}
-var commentSubst = []string{" /*c*/ ", " -- c\n ", "\n-- x y z\n", " /* a * / b */ ", "\t/**/\t", " /* -- */ ", " /***/ ", " /****/ ", " /*** banner ***/ ", " /* ** * ***/ ", " --\n ", " /* \n */ "}
+var commentSubst = []string{" /*c*/ ", " -- c\n ", " --c\n ", " --the field\n ", " --1\n", " --\r\n ", "\n-- x y z\n", " /* a * / b */ ", "\t/**/\t", " /* -- */ ", " /***/ ", " /****/ ", " /*** banner ***/ ", " /* ** * ***/ ", " --\n ", " /* \n */ "}
 
 // posOfOffset: line/char of a byte offset in an ASCII, CR-free text
 func posOfOffset(text string, off int) influxql.Pos {
@@ -107,10 +107,21 @@ func c16Gaps(o *out, r *rng, kind string, allGaps bool) {
 
 func c16Query(o *out, r *rng) {
 	k := r.intn(5)
+	kinds := make([]string, k)
+	for i := range kinds {
+		kinds[i] = pick(r, stmtKinds)
+	}
+	c16QueryOf(o, r, kinds)
+}
+
+// c16QueryOf: statements of the given kinds joined into one query; each must come out as it does alone (compared
+// after the WHOLE query has been parsed: nothing a later statement does may reach back into an earlier one)
+func c16QueryOf(o *out, r *rng, kinds []string) {
+	k := len(kinds)
 	var texts []string
 	var asts []string
 	for i := 0; i < k; i++ {
-		t, _, _ := genStatement(r, pick(r, stmtKinds), r.chance(1, 2))
+		t, _, _ := genStatement(r, kinds[i], r.chance(1, 2))
 		st, err := influxql.ParseStatement(t)
 		if err != nil {
 			return
@@ -216,6 +227,34 @@ func propC16(o *out, r *rng, thorough bool) {
 					o.fail("", fmt.Sprintf("statement %d of %d copies of %q differs from parsing it alone: %s", i, n, unit, s.String()), rp)
 					break
 				}
+			}
+		}
+	}
+	// several statements of the SAME kind in one query (two lists of keys, two lists of destinations, two password
+	// clauses ...): what the parser keeps between statements must not leak from one into the other
+	for _, kind := range stmtKinds {
+		for rep := 0; rep < 3; rep++ {
+			c16QueryOf(o, r, []string{kind, kind})
+			c16QueryOf(o, r, []string{kind, kind, kind})
+		}
+	}
+	for _, qt := range []string{"SHOW TAG VALUES FROM cpu WITH KEY IN (region, host); SHOW TAG VALUES FROM mem WITH KEY IN (dc, rack)",
+		"SHOW TAG VALUES WITH KEY IN (a, b, c); SHOW TAG VALUES WITH KEY IN (d); SHOW TAG VALUES WITH KEY IN (e, f)",
+		"CREATE SUBSCRIPTION s1 ON db.rp DESTINATIONS ALL 'udp://a:9001', 'udp://b:9002'; CREATE SUBSCRIPTION s2 ON db.rp DESTINATIONS ANY 'udp://c:9003'",
+		"SELECT f(a, b, c) FROM m; SELECT g(d) FROM n", "SELECT a, b FROM m, n GROUP BY x, y; SELECT c FROM o GROUP BY z"} {
+		o.checked()
+		o.count("same-kind")
+		q, err := influxql.ParseQuery(qt)
+		rp := map[string]interface{}{"op": "query", "text": qt}
+		if err != nil {
+			o.fail("", fmt.Sprintf("ParseQuery(%q) fails: %v", qt, err), rp)
+			continue
+		}
+		for i, part := range strings.Split(qt, ";") {
+			alone, err := influxql.ParseStatement(part)
+			if err != nil || i >= len(q.Statements) || stmtSexp(alone) != stmtSexp(q.Statements[i]) {
+				o.fail("", fmt.Sprintf("statement %d of ParseQuery(%q) differs from parsing it alone", i, qt), rp)
+				break
 			}
 		}
 	}
